@@ -136,8 +136,8 @@ LIMITS = r"""
   character-level parsing (validated); C11 timestamp mapping and recovery liveness (closed-loop oracle);
   C13 cross-endpoint statements (oracle; refuted by K4/K9/K10); C15 the float delay filter (its verdict
   is a universally quantified input; `pow` of libm has no PrimFloat counterpart, so a bit-exact model is
-  out of reach here); C17 reconfiguration sequence numbers (metamorphic oracle); C19 scheduler fairness
-  step (argued).
+  out of reach here); C17 the composition of the per-component shift theorems into one statement about
+  a whole connection (metamorphic oracle); C19 scheduler fairness step (argued).
 * 16-bit SSN window (C01 theorem 5) and 2^31 TSN window (C01 theorem 3) are hypotheses inherent to
   SCTP's serial arithmetic; the code path that keeps arrivals inside 65535 TSNs of the cumulative
   point (`far_ahead`) is modelled and proved not to assert.
